@@ -1,0 +1,34 @@
+// Verification hooks for the model-checking harness in /verif.
+//
+// Compiled only with the cargo feature `rngs_verif`; add-only: nothing in the
+// crate calls these, and no existing item is changed. They expose the 64-bit
+// entropy pool (read / write) and one invocation of the private `stir_pool`
+// step, which property C15 (bijectivity of the pool mixers) needs to observe.
+
+use crate::JitterRng;
+
+impl<F> JitterRng<F>
+where
+    F: Fn() -> u64 + Send + Sync,
+{
+    /// Verification hook: return the current 64-bit entropy pool.
+    pub fn verif_pool(&self) -> u64 {
+        self.data
+    }
+
+    /// Verification hook: overwrite the 64-bit entropy pool.
+    pub fn verif_set_pool(&mut self, pool: u64) {
+        self.data = pool;
+    }
+
+    /// Verification hook: run the private `stir_pool` step exactly once.
+    pub fn verif_stir_pool(&mut self) {
+        self.stir_pool();
+    }
+
+    /// Verification hook: whether the upper half of the pool is pending for
+    /// the next `next_u32` call.
+    pub fn verif_half_pending(&self) -> bool {
+        self.data_half_used
+    }
+}
